@@ -120,7 +120,8 @@ def eval_str(node, env: dict, funcs: dict | None = None):
                 args = [ev(a) for a in n.args]
                 kws = {k.arg: ev(k.value) for k in n.keywords}
                 if isinstance(recv, str) and meth in ("join", "format", "replace", "lower", "upper", "strip",
-                                                      "lstrip", "rstrip", "removeprefix", "removesuffix", "split", "title"):
+                                                      "lstrip", "rstrip", "removeprefix", "removesuffix", "split", "title",
+                                                      "startswith", "endswith", "isdigit", "isalpha"):
                     if meth == "join":
                         return recv.join(str(x) for x in args[0])
                     return getattr(recv, meth)(*args, **kws)
